@@ -493,16 +493,27 @@ where
 {
     #[cfg_attr(feature = "tracing", instrument(skip_all, level = "trace"))]
     fn poll_ready(&mut self, cx: &mut task::Context<'_>) -> Poll<Result<(), StreamErrorIncoming>> {
-        if let Some(ref mut data) = self.writing {
+        if let Some(mut data) = self.writing.take() {
             while data.has_remaining() {
                 let stream = Pin::new(&mut self.stream);
-                let written = ready!(stream.poll_write(cx, data.chunk()))
-                    .map_err(convert_write_error_to_stream_error)?;
-                data.advance(written);
+                match stream.poll_write(cx, data.chunk()) {
+                    Poll::Ready(Ok(written)) => data.advance(written),
+                    Poll::Ready(Err(err)) => {
+                        // The stream will not take the rest of this buffer any more (stopped by
+                        // the peer, or the connection is lost), so it is dropped here. Keeping it
+                        // would make the next `send_data` on this stream look like misuse of the
+                        // traits and turn a stream error into a connection error.
+                        return Poll::Ready(Err(convert_write_error_to_stream_error(err)));
+                    }
+                    Poll::Pending => {
+                        // not done yet: keep the rest for the next call
+                        self.writing = Some(data);
+                        return Poll::Pending;
+                    }
+                }
             }
         }
         // all data is written
-        self.writing = None;
         Poll::Ready(Ok(()))
     }
 
